@@ -1528,7 +1528,24 @@ func (node *IntervalExpr) walkSubtree(visit Visit) error {
 
 // Format formats the node.
 func (node *CollateExpr) Format(buf *TrackedBuffer) {
-	buf.Myprintf("%v collate %s", node.Expr, node.Charset)
+	buf.Myprintf("%v collate ", node.Expr)
+	formatCharsetName(buf, node.Charset)
+}
+
+// formatCharsetName writes a character set / collation name. The grammar takes it as an identifier or as a string
+// literal and keeps only the text: a name that does not scan as an identifier again (empty, with spaces or
+// quotes) is written as a string literal.
+func formatCharsetName(buf *TrackedBuffer, name string) {
+	plain := name != ""
+	for i := 0; plain && i < len(name); i++ {
+		ch := name[i]
+		plain = ch == '_' || ch == '$' || (ch >= '0' && ch <= '9' && i > 0) || (ch >= 'a' && ch <= 'z') || (ch >= 'A' && ch <= 'Z')
+	}
+	if plain {
+		buf.Myprintf("%s", name)
+		return
+	}
+	sqltypes.MakeTrusted(sqltypes.VarBinary, []byte(name)).EncodeSQL(buf)
 }
 
 func (node *CollateExpr) walkSubtree(visit Visit) error {
@@ -1644,7 +1661,9 @@ func (node *ConvertExpr) walkSubtree(visit Visit) error {
 
 // Format formats the node.
 func (node *ConvertUsingExpr) Format(buf *TrackedBuffer) {
-	buf.Myprintf("convert(%v using %s)", node.Expr, node.Type)
+	buf.Myprintf("convert(%v using ", node.Expr)
+	formatCharsetName(buf, node.Type)
+	buf.Myprintf(")")
 }
 
 func (node *ConvertUsingExpr) walkSubtree(visit Visit) error {
